@@ -29,6 +29,8 @@ type Report struct {
 	Inconclusive []string
 	Samples      map[string][]string // a few written-out cases per topic
 	Shape        []string            // abstract sequence of notable events (run signature)
+	CaseCount    int                 // engines whose runs hold many cases: number of cases
+	Cases        []string            // hashes of the non-trivial cases
 }
 
 type nodeKey struct{ cid, nid uint64 }
@@ -419,6 +421,27 @@ func (a *Analyzer) Feed(r *ev.Rec) {
 		a.wireIDs[r.ID] = true
 	case "end":
 		a.ended = true
+	case "logfs-point":
+		a.rep.Stats["point:"+r.Point] += r.Cnt
+	case "logfs-op":
+		a.rep.Stats["op:"+r.Op] += r.Cnt
+	case "logfs-program":
+		a.rep.CaseCount++
+		// non-trivial: the program made the log span several segments
+		if r.Occ >= 2 {
+			a.rep.Cases = append(a.rep.Cases, fmt.Sprintf("%x", r.H))
+		}
+		if r.Note != "" {
+			a.sample("program", r.Note)
+		}
+	case "case":
+		a.rep.CaseCount++
+		if r.On {
+			a.rep.Cases = append(a.rep.Cases, fmt.Sprintf("%x", r.H))
+		}
+		if r.Note != "" {
+			a.sample("case", r.Note)
+		}
 	case "assert":
 		a.find(r.Note, "online-assertion", r.Reason, r.Q, "%s", r.Err)
 	}
